@@ -1258,6 +1258,32 @@ def oracle_steady(ctx: Ctx, case, m=None):
                 steps.append(("jacob after the copy was changed in place", y.copy(), np.array(ev.eval_jacob(y), dtype=float)))
         except Exception as ex:
             ctx.count(f"oracle:steady-{flavour}-history-raised:{type(ex).__name__}")
+        if len(steps) == 5:
+            # replayed line by line on the Lean state machine (`evhist`): which point is in force at every observation; on the
+            # implementation side the point is identified by comparing the returned Jacobian with the analytic Jacobian of a fresh evaluator
+            pts = [g0] + [p for _, p, _ in steps]            # ids 0..5; ids 3 and 4 hold equal values (the copy)
+            ops = [("j", 0), ("j", 1), ("f", 2), ("j", 2), ("e", 3), ("j", 4), ("j", 5)]
+            try:
+                with np.errstate(all="ignore"):
+                    refJ = [np.array(ref.eval_jacob(np.array(p, dtype=float)), dtype=float) for p in pts]
+
+                def ident(Jk, passed):
+                    order = [passed] + [i for i in range(len(pts)) if i != passed]
+                    for i in order:
+                        if refJ[i].shape == Jk.shape and np.allclose(refJ[i], Jk, rtol=1e-9, atol=1e-9, equal_nan=True):
+                            return str(i)
+                    return "?"
+                obs = {1: steps[0][2], 3: steps[1][2], 4: steps[2][2], 5: steps[3][2], 6: steps[4][2]}
+                words = []
+                for pos, (kind, pid) in enumerate(ops):
+                    got = ident(obs[pos], pid) if pos in obs else str(pid)
+                    words.append(f"e:{pid}:{got}" if kind == "e" else f"{kind}:{got}")
+                if not hasattr(ctx, "_evhist"):
+                    ctx._evhist = []
+                ctx._evhist.append((" ".join(["evhist"] + [f"{k}:{i}" for k, i in ops]), " ".join(words),
+                                    {"model": case.get("source", "")[:300], "evaluator": flavour}))
+            except Exception as ex:
+                ctx.count("oracle:evhist-raised:" + type(ex).__name__)
         for label, point, Jk in steps:
             D, E = fd_at(point)
             ctx.count("oracle:steady-history-calls")
@@ -1701,12 +1727,13 @@ def gen_linear_model(rng):
     return {"source": "\n".join(src), "assign": dict(par), "linear": True}
 
 
-def run_variant_models(ctx: Ctx, bad_rules: set, scale=1):
+def run_variant_models(ctx: Ctx, bad_rules: set, scale=1, oracle_only=False):
     """one model object with several parameter variants (different parameter values and steady states), linear and nonlinear;
     every variant's systemize() against differences at the point the harness builds from THAT variant's values; then the values
     of the same object are re-assigned and it is systemized again (multi-step history on one object)"""
     n = ctx.n(16, 160) * scale
     rng = ctx.rng.fork("variant-models")
+    sm_lines, sm_impl, sm_cases = [], [], []
     for i in range(n):
         r = rng.fork(i)
         linear = (i % 2 == 0)
@@ -1728,6 +1755,74 @@ def run_variant_models(ctx: Ctx, bad_rules: set, scale=1):
         if i < 2:
             ctx.sample({"stream": "variant-model", "source": case["source"], "linear": linear, "variants": variants})
         check_variant_model(ctx, case)
+        if not oracle_only:
+            try:
+                m = build_model(case)
+                ls, im = sysmat_lines(case, m, variants, linear)
+                sm_lines += ls; sm_impl += im
+                sm_cases += [{"model": case["source"], "variant": k, "linear": linear, "values": variants[k]} for k in range(len(ls))]
+            except Exception as ex:
+                ctx.count("variant-models:sysmat-lines-raised:" + type(ex).__name__)
+    if not oracle_only and sm_lines:
+        compare_sysmat(ctx, sm_cases, sm_lines, sm_impl)
+
+
+def sysmat_lines(case, m, assigns, linear):
+    """end-to-end matrix correspondence: systemize()[k].A / .B (equation rows) of every variant against the Lean model's `systemAB`
+    (generated rules + walk + maps + assembly) at the point built from that variant's own values"""
+    inv = m._invariant
+    sv = inv.dynamic_descriptor.system_vectors
+    eqs = {e.id: e for e in inv.dynamic_equations}
+    ql = m.create_qid_to_logly()
+    nq = len(inv.quantities)
+    bits = "".join("1" if ql.get(i, False) else "0" for i in range(nq))
+    enc = lambda x: str(float_bits(x))
+    off = -inv._min_shift
+    try:
+        systems = m.systemize(unpack_singleton=False)
+    except TypeError:
+        systems = None
+    lines, impl = [], []
+    nT = len(sv.transition_eids)
+    for vid, asg in enumerate(assigns):
+        arr = own_data_array(m, asg, linear)
+        toks = sorted(set((t.qid, t.shift) for eid in sv.transition_eids for t in eqs[eid].incidence))
+        ws = ["sysmat", "F", bits, str(len(toks))]
+        for q, sft in toks:
+            ws += [str(q), str(sft), enc(arr[q, off + sft])]
+        ws += tok_list(sv.transition_variables) + [str(nT)]
+        for eid in sv.transition_eids:
+            ws += tok_list(sv.eid_to_wrt_tokens[eid]) + prefix(tree_of_xtring(eqs[eid].xtring), enc)
+        lines.append(" ".join(ws))
+        impl.append(None if systems is None else (np.array(systems[vid].A[:nT, :], dtype=float), np.array(systems[vid].B[:nT, :], dtype=float)))
+    return lines, impl
+
+
+def compare_sysmat(ctx: Ctx, cases, lines, impl):
+    reps = ctx.model("C02", lines)
+    if reps is None:
+        return
+    import struct
+    ctx.streams_compared["system-matrix"] = ctx.streams_compared.get("system-matrix", 0) + len(lines)
+    for c, im, rep in zip(cases, impl, reps):
+        if im is None or rep.startswith("err"):
+            if not (im is None and rep == "err:rejected"):
+                ctx.disagree("system-matrix", c, "rejected" if im is None else "matrices", rep[:80])
+            continue
+        try:
+            parts = dict(p.split("=", 1) for p in rep.split("|"))
+            ok = True
+            for name, M in (("A", im[0]), ("B", im[1])):
+                rows = [[struct.unpack("<d", struct.pack("<Q", int(w)))[0] for w in r.split(",")] for r in parts[name].split(";")] if parts[name] else []
+                mm = np.array(rows, dtype=float).reshape(M.shape)
+                if not all(close(float(a), float(b)) for a, b in zip(M.ravel(), mm.ravel())):
+                    ok = False
+                    ctx.disagree("system-matrix", c, f"{name}={M.tolist()}", f"{name}={mm.tolist()}")
+                    break
+            if ok:
+                ctx.count("system-matrix:agree")
+        except Exception as ex:
+            ctx.disagree("system-matrix", c, "matrices", f"unparsable reply ({type(ex).__name__}): {rep[:80]}")
 
 
 def check_variant_model(ctx: Ctx, case):
@@ -1897,6 +1992,9 @@ def run(ctx: Ctx):
     run_models(ctx, bad_rules)
     run_forward_models(ctx)
     run_variant_models(ctx, bad_rules)
+    hist = getattr(ctx, "_evhist", [])
+    if hist:
+        ctx.compare("evaluator-history", [h[2] for h in hist], [h[1] for h in hist], ctx.model("C02", [h[0] for h in hist]))
     ctx.extra["rules_failing_the_oracle"] = sorted(bad_rules)
 
 
@@ -1911,7 +2009,7 @@ def search(ctx: Ctx, seeds):
     run_trees(ctx, bad_rules, oracle_only=True, scale=3)
     run_models(ctx, bad_rules, oracle_only=True, scale=2)
     run_forward_models(ctx, scale=2, oracle_only=True)
-    run_variant_models(ctx, bad_rules, scale=2)
+    run_variant_models(ctx, bad_rules, scale=2, oracle_only=True)
 
 
 def replay(ctx: Ctx, payload):
